@@ -326,6 +326,9 @@ func c04Check(c *C04Case, r *core.Rec) {
 		{"*0.5", func(x float64) float64 { return x * 0.5 }, func(m float64) float64 { return m * 0.5 }},
 		{"*3", func(x float64) float64 { return x * 3 }, func(m float64) float64 { return m * 3 }},
 		{"*1e3", func(x float64) float64 { return x * 1e3 }, func(m float64) float64 { return m * 1e3 }},
+		{"*2^-24", func(x float64) float64 { return x * 0x1p-24 }, func(m float64) float64 { return m * 0x1p-24 }},
+		{"*2^-40", func(x float64) float64 { return x * 0x1p-40 }, func(m float64) float64 { return m * 0x1p-40 }},
+		{"*2^30", func(x float64) float64 { return x * 0x1p30 }, func(m float64) float64 { return m * 0x1p30 }},
 	} {
 		tc := &C04Case{Test: c.Test, X1: mapF(c.X1, tr.f), X2: mapF(c.X2, tr.f), Mu0: c.Mu0}
 		if c.Test == "one" {
@@ -621,6 +624,15 @@ func c04Run(c *core.Ctx) {
 		// case that carries its whole history
 		for _, conf := range []float64{0.5, 0.9, 0.95, 0.99} {
 			for _, ord := range [][]int{order[:39], order[39:78], order[78:], order} {
+				*cs = C04Case{Test: "meanci-sweep", Sizes: ord, Conf: conf}
+				r.Case("ttest", cs)
+				r.Try(func() { c04Check(cs, r) })
+			}
+		}
+		// short repetitive histories over two and three (size, level) keys: A,B,A,A,B,B,A,B,...
+		// (a recently-used cache with a bookkeeping slip only shows on the 4th call)
+		for _, conf := range []float64{0.9, 0.95} {
+			for _, ord := range [][]int{{5, 9, 5, 5, 9, 9, 5, 9, 5}, {7, 12, 20, 7, 7, 20, 12, 12, 7, 20}, {3, 3, 3, 4, 3, 4, 4, 3}} {
 				*cs = C04Case{Test: "meanci-sweep", Sizes: ord, Conf: conf}
 				r.Case("ttest", cs)
 				r.Try(func() { c04Check(cs, r) })
